@@ -128,6 +128,19 @@ var designated = map[string][]string{
 		"Get for installed chain of entries - RIB ACK",
 		"Get for installed chain of entries - FIB ACK",
 	},
+	// judged by the harness alone (not modelled in Compliance.v).
+	// The tests that compare the ModifyRPCErrorDetails reason of a rejected session and get a FailedPrecondition
+	// from the reference server. The two other tests that name a reason ("Election - Ensure that election ID is not
+	// accepted in ALL_PRIMARY mode", "Election - Ensure client with differing parameters is rejected") connect in
+	// ALL_PRIMARY mode, are answered Unimplemented by the reference server and accept that answer whatever its
+	// details (chk.AllowUnimplemented): they pass against this fault.
+	"wrong_reject_reason": {
+		"Modify RPC Connection with invalid persist/redundancy parameters",       // wants UNSUPPORTED_PARAMS (with AllowUnimplemented)
+		"Election - Ensure that a client with mismatched parameters is rejected", // wants PARAMS_DIFFER_FROM_OTHER_CLIENTS
+	},
+	"leak_results_to_other_sessions": {
+		"AFTOperation responses must not be sent to other clients",
+	},
 }
 
 // controls names, for each fault, tests about the same requirement that the fault must NOT break (they are run and
@@ -141,6 +154,16 @@ var controls = map[string][]string{
 	"old_primary_kept_on_equal_id":    {"Election - Unannounced master operations are rejected"},
 	"stale_get_nh_table":              {"Get for installed NHG - RIB ACK"},
 	"stale_get_nhg_table":             {"Get for installed NH - RIB ACK"},
+	// rejected sessions whose test does not look at the reason (IgnoreDetails / the Unimplemented alternative)
+	"wrong_reject_reason": {
+		"Modify RPC Connection with repeated SessionParameters",
+		"Election - Ensure that election ID is not accepted in ALL_PRIMARY mode",
+	},
+	// single-client tests: no other stream is open, nothing leaks
+	"leak_results_to_other_sessions": {
+		"Add IPv4 entry that can be programmed on the server - with RIB ACK",
+		"Idempotent Delete entry - RIB ACK",
+	},
 }
 
 // extraDesignated is added in the thorough tier (tests that end in the client's one-minute wait).
